@@ -229,6 +229,11 @@ fn site(cx: &mut CaseCtx, s: u64) {
                     }
                     let full = Res::AddrSpace { w, ty, cache: 0, rw: false, min: 0, max, trans: None };
                     refuse(cx, name, format!("{:?} type {} range 0..=MAX (size overflows the width)", w, ty), || build_bytes(&Term::ResourceTemplate(vec![full]), false));
+                    // an inverted range has no size a length field could state (the subtraction underflows)
+                    for (mn, mx) in [(1u64, 0u64), (max, 0), (max, max - 1), (0x1000u64.min(max), 0xfff), (far(&mut r, 2, 60000) as u64, 1)] {
+                        let inv = Res::AddrSpace { w, ty, cache: 0, rw: false, min: mn, max: mx, trans: None };
+                        refuse(cx, name, format!("{:?} type {} inverted range {:#x}..={:#x}", w, ty, mn, mx), || build_bytes(&Term::ResourceTemplate(vec![inv]), false));
+                    }
                 }
             }
         }
